@@ -2,8 +2,8 @@
 // TRUSTED BASE: every `axiom fn`, `assume_specification` and `external_body` below is an assumption
 // (DESIGN.md section 4: T1 floats never trap, T2 ideal arithmetic on finite values, T3 order,
 // T4 literals, T5 std specs).  Everything else in this file is proved.
-use vstd::std_specs::ops::*;
-use vstd::std_specs::cmp::*;
+pub use vstd::std_specs::ops::*;
+pub use vstd::std_specs::cmp::*;
 use core::cmp::Ordering;
 
 // ---------------------------------------------------------------------------------------------
